@@ -169,12 +169,15 @@ func runC13(r *mc.Run) {
 	// all 5040 arrangements of seven selected TCB elements (components 1, 2, 8, 15, 16, PCESVN, CPUSVN) among
 	// their seven positions, the other eleven staying in place
 	sel := []int{0, 1, 7, 14, 15, 16, 17}
-	for _, perm := range permutations(7) {
+	if r.Thorough() {
+		sel = []int{0, 1, 7, 8, 14, 15, 16, 17} // 40320 arrangements
+	}
+	for _, perm := range permutations(len(sel)) {
 		t := append([][]byte(nil), tcb...)
 		for k, p := range perm {
 			t[sel[k]] = tcb[sel[p]]
 		}
-		add(fmt.Sprintf("order/tcb/perm7/%v", perm), base, assemble(base, stdOrder, t, top), wantExact)
+		add(fmt.Sprintf("order/tcb/perm%d/%v", len(sel), perm), base, assemble(base, stdOrder, t, top), wantExact)
 	}
 	// Intel platform-CA layout with seven elements
 	{
